@@ -209,6 +209,23 @@ func (s *s1) checkC03(i int, out *TxnOutcome) {
 	}
 }
 
+// anyStrings reads a JSON-ish list of strings ([]string or []any).
+func anyStrings(v any) []string {
+	switch l := v.(type) {
+	case []string:
+		return l
+	case []any:
+		var out []string
+		for _, x := range l {
+			if s, ok := x.(string); ok {
+				out = append(out, s)
+			}
+		}
+		return out
+	}
+	return nil
+}
+
 func trimStr(s string, n int) string {
 	if len(s) > n {
 		return s[:n] + "..."
@@ -236,20 +253,46 @@ func (s *s1) compareResult(op Op, act ActRes, ref RefResult) string {
 		t := e.Sch.Tables[op["table"].(string)]
 		var have, want []string
 		_, hasCols := op["columns"]
+		asked := map[string]bool{}
+		uuidAsked := !hasCols
+		for _, c := range anyStrings(op["columns"]) {
+			asked[c] = true
+			if c == "_uuid" {
+				uuidAsked = true
+			}
+		}
 		extra := false
 		byU := map[string]Row{}
+		var anon []Row // rows returned without their uuid
 		for _, rj := range act.Rows {
 			r, u, err := RowFromWire(t, rj)
 			if err != nil {
 				return "undecodable select row: " + err.Error()
 			}
-			byU[u] = r
+			if u == "" {
+				if uuidAsked {
+					return fmt.Sprintf("select returned a row without the _uuid it was asked for: %s", r.String())
+				}
+				anon = append(anon, r)
+			} else {
+				byU[u] = r
+				if !uuidAsked {
+					extra = true
+				}
+			}
+			if hasCols {
+				for c := range r {
+					if !asked[c] {
+						extra = true
+					}
+				}
+			}
 			have = append(have, "uuid="+u+" "+r.String())
 		}
 		sort.Strings(have)
 		// a column left out of a returned row is read as holding its default
-		// (empty) value; rows are matched by content because _uuid may not
-		// have been asked for
+		// (empty) value; rows are matched by uuid when they carry one and by
+		// content when _uuid was not asked for
 		canon := func(r Row, cols []string) string {
 			o := Row{}
 			for _, c := range cols {
@@ -268,13 +311,12 @@ func (s *s1) compareResult(op Op, act ActRes, ref RefResult) string {
 			wantC = append(wantC, canon(r.Row, cols))
 			if a, ok := byU[r.UUID]; ok {
 				haveC = append(haveC, canon(a, cols))
-				if hasCols && len(a) > len(cols) {
-					for c := range a {
-						if _, asked := r.Row[c]; !asked {
-							extra = true
-						}
-					}
-				}
+			}
+		}
+		if len(ref.Rows) > 0 {
+			cols := SortedKeys(ref.Rows[0].Row)
+			for _, a := range anon {
+				haveC = append(haveC, canon(a, cols))
 			}
 		}
 		sort.Strings(want)
